@@ -97,10 +97,10 @@ Theorem C13_literal_keeps_token :
 Proof. exact lit_keeps_token. Qed.
 Print Assumptions C13_literal_keeps_token.
 
-(** The two expression helpers differ only on a string literal. *)
+(** The two expression helpers differ only on a string literal (invisible groups are transparent). *)
 Theorem C13_expr_helpers_differ_only_on_string_literal :
   forall reparse (m : nested),
-    (forall i p j s, m <> NNameValue i p (ELit j (LStr s))) ->
+    (forall i p e j s, m = NNameValue i p e -> strip_groups e <> ELit j (LStr s)) ->
     parse_str_literal reparse m = preserve_str_literal m.
 Proof. exact helpers_differ_only_on_string_literal. Qed.
 Print Assumptions C13_expr_helpers_differ_only_on_string_literal.
